@@ -108,7 +108,9 @@ Definition lookup_head (al : list Z) (c : Z) : option Z :=
   | Some i => Some i
   | None => last_index_where (fun a => a =? c) al 0 None
   end.
-(* the repaired table (lower-case entries only for letters) *)
+(* the table since the C06 repair (c99b89e): lookup[alphabet]=i, then lookup[lower(alphabet)]=i, where lower() moves
+   only letters; for a non-letter member both writes hit the same entry, so only letters need the first search
+   (alphabets are upper-cased by the constructor) *)
 Definition lookup_fixed (al : list Z) (c : Z) : option Z :=
   match last_index_where (fun a => ((65 <=? a) && (a <=? 90)) && (a + 32 =? c)) al 0 None with
   | Some i => Some i
@@ -122,8 +124,8 @@ Definition m_prep_with (lk : list Z -> Z -> option Z) (e : enc) (c : Z) : option
                 | None => None
                 end
   end.
-Definition m_prep := m_prep_with lookup_head.          (* the code in /repo HEAD *)
-Definition m_prep_fixed := m_prep_with lookup_fixed.   (* after the C06 repair; switch here *)
+Definition m_prep := m_prep_with lookup_fixed.          (* the code in /repo HEAD (since c99b89e) *)
+Definition m_prep_pinned := m_prep_with lookup_head.    (* the table before the C06 repair: kept for the _pinned theorems *)
 
 (* _decode: alphabet[code]; a code outside the alphabet has no character (IndexError in NumPy): the model
    maps it to a negative number (no character is negative), a different one for each code, so that no two
@@ -642,8 +644,8 @@ Definition model_prims_with (prep : enc -> Z -> option Z) (vr : variant) : prims
   p_prep := prep; p_dec := decode1;
   p_join := m_join; p_split := m_split; p_streq := m_streq; p_streq2 := m_streq2;
   p_rslice := m_rslice; p_sarr := m_sarr vr |}.
-Definition model_prims := model_prims_with m_prep repaired.
-Definition model_prims_fixed_lookup := model_prims_with m_prep_fixed repaired.   (* with the repaired C06 lookup table *)
+Definition model_prims := model_prims_with m_prep repaired.                    (* /repo HEAD *)
+Definition model_prims_pinned_lookup := model_prims_with m_prep_pinned repaired.   (* with the table before the C06 repair *)
 
 Definition is_assignment (o : op) : bool :=
   match o with
